@@ -548,6 +548,17 @@ class Enumerator:
             v = self.prog.const_eval(it, self.cls.mod, self.cls)
             if v is not NOCONST and isinstance(v, (list, tuple)) and all(isinstance(x, (int, str, float, bool, type(None))) for x in v):
                 vals = list(v)
+        # zip(<display of constants>, <display of constants>, ...): a display of tuples
+        if vals is None and isinstance(it, ast.Call) and isinstance(it.func, ast.Name) and it.func.id == "zip" and not it.keywords and len(it.args) >= 2 \
+                and all(isinstance(a, (ast.Tuple, ast.List)) and a.elts and all(isinstance(e, ast.Constant) for e in a.elts) for a in it.args) \
+                and not enum and not st.orelse and not any(isinstance(n, (ast.Break, ast.Continue)) for n in ast.walk(st)):
+            m = min(len(a.elts) for a in it.args)
+            if m <= 8:
+                elts = [ast.Tuple(elts=[a.elts[i] for a in it.args], ctx=ast.Load()) for i in range(m)]
+                for e in elts:
+                    ast.copy_location(e, it)
+                    ast.fix_missing_locations(e)
+                return ("exprs", elts), False
         if vals is None and isinstance(it, (ast.Tuple, ast.List)) and not enum and not st.orelse and 0 < len(it.elts) <= 8 \
                 and not any(isinstance(e, ast.Starred) for e in it.elts) and not any(isinstance(n, (ast.Break, ast.Continue)) for n in ast.walk(st)):
             # a display of small tuples / expressions written in the loop header
